@@ -306,16 +306,20 @@ class GroupBase:
 
         n_mdl, n_pair = len(self.models), len(values[0])
 
+        # a private marker for "not found in this model": a device whose idx equals the caller's `default`
+        # must not be mistaken for a missing one
+        missing = object()
+
         indices_found = []
         # `indices_found` contains found indices returned from all models of this group
         for model in self.models.values():
-            indices_found.append(model.find_idx(keys, values, allow_none=True, default=default, allow_all=True))
+            indices_found.append(model.find_idx(keys, values, allow_none=True, default=missing, allow_all=True))
 
         # --- find missing pairs ---
         i_val_miss = []
         for i in range(n_pair):
             idx_cross_mdls = [indices_found[j][i] for j in range(n_mdl)]
-            if all(item == [default] for item in idx_cross_mdls):
+            if all(item == [missing] for item in idx_cross_mdls):
                 i_val_miss.append(i)
 
         if (not allow_none) and i_val_miss:
@@ -328,11 +332,11 @@ class GroupBase:
         out_pre = []
         for i in range(n_pair):
             idx_cross_mdls = [indices_found[j][i] for j in range(n_mdl)]
-            if all(item == [default] for item in idx_cross_mdls):
+            if all(item == [missing] for item in idx_cross_mdls):
                 out_pre.append([default])
                 continue
             # the matches of every model of the group, in the order of the models
-            out_pre.append([idx for item in idx_cross_mdls if item != [default] for idx in item])
+            out_pre.append([idx for item in idx_cross_mdls if item != [missing] for idx in item])
 
         if allow_all:
             out = out_pre
